@@ -98,3 +98,49 @@ pub fn probe_fma_p5() {
     assert!(same(f64::mul_add(x, y, -p), libm::fma(x, y, -p)));
     reached();
 }
+
+//@ id=PROBE tier=probe to=300 cfg=std desc="cbrt(0) only"
+#[cfg_attr(kani, kani::proof)]
+pub fn probe_cbrt_zero() {
+    let z = tf(0.0, 0.0).cbrt();
+    assert!(z.hi() == 0.0 && z.lo() == 0.0);
+    reached();
+}
+
+//@ id=PROBE tier=probe to=300 cfg=std desc="cbrt(8) only"
+#[cfg_attr(kani, kani::proof)]
+pub fn probe_cbrt_eight() {
+    let a = tf(8.0, 0.0).cbrt();
+    assert!(a.hi() == 2.0);
+    reached();
+}
+
+//@ id=PROBE tier=probe to=200 cfg=std desc="libm::cbrt alone"
+#[cfg_attr(kani, kani::proof)]
+pub fn probe_libm_cbrt() {
+    let x = any_f64();
+    let r = libm::cbrt(x);
+    assert!(x != 0.0 || r == 0.0);
+    reached();
+}
+
+pub fn cbrt_contract(x: f64) -> f64 {
+    if x == 0.0 { x } else { any_f64() }
+}
+
+//@ id=PROBE tier=probe to=200 cfg=std stub=1 desc="cbrt(0) with libm::cbrt contract stub"
+#[cfg_attr(all(kani, feature = "stubs"), kani::proof)]
+#[cfg_attr(all(kani, feature = "stubs"), kani::stub(libm::cbrt, cbrt_contract))]
+pub fn probe_cbrt_zero_stub() {
+    let z = tf(0.0, 0.0).cbrt();
+    assert!(z.hi() == 0.0 && z.lo() == 0.0);
+    reached();
+}
+
+//@ id=PROBE tier=probe to=300 cfg=std desc="cbrt(0), input pinned by assumption"
+#[cfg_attr(kani, kani::proof)]
+pub fn probe_cbrt_zero_pinned() {
+    let z = tf(pinned(0.0), pinned(0.0)).cbrt();
+    assert!(z.hi() == 0.0 && z.lo() == 0.0);
+    reached();
+}
